@@ -138,7 +138,7 @@ PROPS = {
     },
     "C18": {
         "level": "exploration",
-        "stages": [hist("pair", "pair::pair_c18", 250, 5000)],
+        "stages": [hist("pair", "pair::pair_c18", 400, 5000)],
         "rule": "case = one history run in lock step on two identical workspaces, one as is and one with the file-state table erased before every build, alternating between the two clock models (every write distinct / one tick per user action or invocation); verdict and all workspace bytes compared after every build, every hash handed to a dependent compared with the file's true hash; distinct by (graph shape, history, clock model); non-trivial when some build restored at least one file from the cache",
         "floor": {"quick": 100, "thorough": 2000},
         "assumptions": COMMON_ASSUME + ["user actions and invocations are separated by at least one clock tick in both clock models"],
